@@ -6,7 +6,7 @@ ROOT = os.path.dirname(os.path.dirname(os.path.abspath(__file__)))
 UNV = os.path.join(ROOT, 'seeded', '_unverified')
 BASE9 = ['test_compute_beta_fails[1]', 'test_fkm_nonlinear_recorder_empty_collective_default', 'test_fkm_nonlinear_recorder_two_non_zero_collective',
          'test_ps_df', 'pylife.mesh.meshsignal;', 'Mesh.vtk_data', 'join_coordinates', 'join_variable', 'make_mesh']
-EXTRA = {'C02': ['C01'], 'C03': ['C01'], 'C13': ['C08'], 'C11': ['C08'], 'C05': ['C07', 'C04']}      # other checks worth trying when the own check misses
+EXTRA = {'C02': ['C01'], 'C03': ['C01'], 'C13': ['C08'], 'C11': ['C08'], 'C05': ['C07', 'C04'], 'C04': ['C05']}      # other checks worth trying when the own check misses
 
 
 def confirmed(c):
